@@ -377,7 +377,12 @@ class ExprMixin(ExecBase):
                     vt = T.boolval(val).t if isinstance(val, bool) else T.intval(val).t
                     t = z3.If(o.t == i, vt, t)
                 return [(st, V(BOOL if attr != "errno" else INT, t))]
-            return [(st, V(PYOBJ, PyThing("method", recv=o, name=attr)))]
+            if attr in ("with_traceback", "add_note"):
+                return [(st, V(PYOBJ, PyThing("method", recv=o, name=attr)))]
+            # any other attribute of an exception object (exc.partial, exc.args, ...): an unknown value of that object -
+            # in particular its truth value is open (it used to be read as a bound method, i.e. always true)
+            aty = Opaque("ExcAttr")
+            return [(st, V(aty, z3.Function("excattr_" + attr, EXC.sort(), aty.sort())(o.t)))]
         if isinstance(ty, (List, Set, Dict)) or ty in (BYTES, STR, INT):
             return [(st, V(PYOBJ, PyThing("method", recv=o, name=attr)))]
         if isinstance(ty, Enum):
